@@ -84,6 +84,15 @@ def run(ctx):
         cases.append((rng.random() < 0.5, [(x, a), (x + k, cblk), (x, a)]))
         cases.append((rng.random() < 0.5, [(x, a), (x, a), (x + k, cblk), (x, a), (x, a)]))
         cases.append((False, [(x + k, cblk), (x, a), (x - 1 if x else x, cblk + a), (x, a)]))
+    # adjacency and overlap together: A, then B over the bytes just past A's end, then C starting exactly at A's end (and
+    # mirrored / longer variants): records are applied in write order, whatever could be merged
+    for _ in range(12 if tier == "quick" else 120):
+        x = rng.randrange(0x100, 0x10000)
+        la, lb, lc = rng.randrange(1, 6), rng.randrange(2, 6), rng.randrange(1, 4)
+        rb = lambda n: bytes(rng.randrange(256) for _ in range(n))  # noqa: E731
+        cases.append((rng.random() < 0.5, [(x, rb(la)), (x + la - rng.randrange(0, 2), rb(lb)), (x + la, rb(lc))]))
+        cases.append((rng.random() < 0.5, [(x + la, rb(lc)), (x + la - 1, rb(lb)), (x, rb(la)), (x + la + lc, rb(2))]))
+        cases.append((False, [(x, rb(la)), (x + la + 1, rb(lb)), (x + la, rb(lc + 2)), (x + la + lc + 2, rb(1))]))
     for _ in range(150 if tier == "quick" else 1500):
         cases.append((rng.random() < 0.5, gen_blocks(rng, tier)))
     ops = [f"ipsw {1 if c else 0} " + (";".join(f"{a}:{d.hex() or '-'}" for a, d in bl) or "-") for c, bl in cases]
